@@ -23,7 +23,7 @@ Variable callf : Z -> list value -> eres (option value).
 Variable env : cenv.
 Variable fn : vfunc.
 Variable C : code.
-Hypothesis Hfetch : forall pc, vf_fetch fn pc = instr_at C pc.
+Hypothesis Hfetch : forall pc i, instr_at C pc = Some i -> vf_fetch fn pc = Some i.
 Variables (B : list value) (IB : list Z) (top itop : Z) (K : list (frame * opkind)).
 
 Notation star := (star cfg funcs nat_fun).
@@ -70,7 +70,7 @@ Definition locals_ok (st : cstate) (sto : store) (L : list value) (IL : list Z) 
     end.
 
 Lemma fetch_at pc i c : code_at C pc (i :: c) -> vf_fetch fn pc = Some i.
-Proof. intros H. rewrite Hfetch. eapply code_at_head; eauto. Qed.
+Proof. intros H. apply Hfetch. eapply code_at_head; eauto. Qed.
 
 Ltac step_at Hc :=
   apply star_one; unfold step, S; cbn [st_fr fr_fn fr_pc st_objs st_ints st_vlen st_callers fr_locals fr_ilocals fr_top fr_itop];
